@@ -1032,6 +1032,15 @@ def check_c18(res, tier, replay):
     vlib.apply_obligations(res, 'C18')
     findings = load_findings('C18')
     base = replay_cases(replay) if replay else [w for w, _ in witness_cases('C18')] + gen_cases(rng, tier, per=(8 if tier == 'quick' else 150))
+    if not replay:
+        # series with missing quotes recorded as 0: divisions by zero must give the same Inf / NaN in every unit
+        for name in CAT:
+            if set(CAT[name][0]) <= set('nx'):
+                continue
+            for _ in range(2 if tier == 'quick' else 12):
+                ns, fs = CAT[name][1](rng, 6)
+                ins, regime, _ = make_inputs(rng, name, idle_of(name, list(ns)) + rng.randrange(6, 40), 'zeroquote')
+                base.append((name, list(ns), list(fs), ins, regime))
     derived = []
     wfactors = {} if replay else {i: (f['witness'].get('price_factor', 2.0), f['witness'].get('volume_factor', 1.0))
                                    for i, (w, f) in enumerate(witness_cases('C18'))}
@@ -1107,8 +1116,17 @@ def check_c18(res, tier, replay):
             for j, (a, b) in enumerate(zip(o0, o1)):
                 x, y = h2f(a) * factor, h2f(b)
                 if x != x or y != y or abs(x) == math.inf or abs(y) == math.inf:
-                    exempt += 1
-                    continue
+                    # undefined positions (0/0, x/0) are exempt as values, but they must be undefined in the same way in both
+                    # units: a finite value on one side and Inf/NaN on the other is a dependence on the unit
+                    if (x != x) == (y != y) and ((x != x) or x == y or (abs(x) != math.inf and abs(y) != math.inf)):
+                        exempt += 1
+                        continue
+                    if c[4] != 'zeroquote' and base[bi][4] != 'zeroquote':
+                        exempt += 1          # overflow / underflow at extreme factors: only judged on the zero-quote series
+                        continue
+                    problem = {'output': k, 'index': j, 'original': h2f(a), 'expected_scaled': x, 'got': y,
+                               'price_factor': cp, 'volume_factor': cv, 'degree': [dp, dv], 'note': 'defined in one unit, undefined in the other'}
+                    break
                 checked += 1
                 if x == y:
                     continue
